@@ -427,7 +427,10 @@ CHECKS = {
                 "in drawn order, with a commit at the new leader): within 20 s the client must be attached to the member that reports leadership with its "
                 "cache equal to that member's database, or to nobody while nobody leads, and must stay so for 50 ms. TestC16Inconsistent: the proxy "
                 "delivers insert-only notifications 2-4 times in a row (the client cannot apply the copies): it must drop the connection, reconnect, "
-                "re-establish 1-3 monitors and converge within 20 s. Non-trivial = cut after the 6th message (monitor set-up begun) "
+                "re-establish 1-3 monitors and converge within 20 s. TestC16Outage: the endpoint is unreachable for 2-4 times the reconnect "
+                "timeout while other clients commit; TestC16Silent: the connection goes silent (the proxy keeps acknowledging the server's calls) while "
+                "the application keeps calling Transact with deadlines shorter than the inactivity timeout - a second connection must appear within 15 s; "
+                "both end with the convergence oracle. After every convergence the client indexes on T0.marker and T1.name are compared with a scan of the cache. Non-trivial = cut after the 6th message (monitor set-up begun) "
                 "resp. a parked window with foreign commits inside; distinct = (scenario, direction, k, mode) resp. (monitors, k, foreign kinds).",
         "assumptions": COMMON_ASSUMPTIONS + [
             "enumerated scenarios run without the inactivity probe so that the fault-free message sequence is the same in every run up to the cut",
@@ -445,6 +448,8 @@ CHECKS = {
             {"name": "TestC16", "quick": 320, "thorough": 1600},
             {"name": "TestC16ReconnectWindow", "quick": 3000, "thorough": 40000},
             {"name": "TestC16Inconsistent", "quick": 1600, "thorough": 30000},
+            {"name": "TestC16Outage", "quick": 48, "thorough": 1600},
+            {"name": "TestC16Silent", "quick": 64, "thorough": 1600},
             {"name": "TestC16Leader", "quick": 320, "thorough": 8000, "shards": {"quick": 8, "thorough": 16}},
         ],
     },
